@@ -41,6 +41,10 @@ def calls_of(fn, rx):
 
 def run(ctx):
     fb = ctx.fb
+    # ---------------------------------------------------------------- Q1 the queue this component re-sizes keeps tickets and rounds in step
+    # (the pool's / cache's reserve_and_clear() relies on ConcurrentBoundedQueue::reserve_and_clear; the clause is C01.R11, evaluated on the queue instantiation used here)
+    import C01 as _C01
+    _C01.geometry_rebase(ctx, "C17.Q1", fb)
     # ---------------------------------------------------------------- R1 compensating roles
     n1 = 0
     for fn in fb.find(pred=lambda f: f.record == CACHED and f.name in ("allocate", "deallocate") and f.has_cfg()
